@@ -571,7 +571,7 @@ def eval_backpressure(case, prop="C06"):
         bad("unhandled-loop-exception", f"{out['unhandled'][:2]}")
     # completeness / order / no duplicates when the consumer reads to the end and nothing fails
     name = ["ys", "xs", "xs", "zs", "ys", "ys"][case["doc"]]
-    if stop["kind"] == "none" and out["end"] == "stop" and case.get("fail_at") is None:
+    if stop["kind"] == "none" and out["end"] == "stop":
         init = out["initial"].get("data") or {}
         got = list(init.get(name) or [])
         ids = {}
@@ -587,7 +587,12 @@ def eval_backpressure(case, prop="C06"):
                 elif "data" in inc and tgt.get("path") == [] and name in (inc["data"] or {}):
                     got = list(inc["data"][name]) + got
         key = [g["id"] if isinstance(g, dict) else g for g in got]
-        if key != list(range(case["n"])):
+        if case.get("fail_at") is not None:
+            # the source fails at index fail_at: what was delivered before the failure is a gap-free prefix
+            if key != list(range(len(key))) or len(key) > case["fail_at"]:
+                bad("items-lost-or-reordered", f"source failed at {case['fail_at']}: assembled {len(key)} items "
+                    f"that are not a prefix of the list: head {key[:5]}, tail {key[-5:]}")
+        elif key != list(range(case["n"])):
             miss = sorted(set(range(case["n"])) - set(key))[:5]
             bad("items-lost-or-reordered", f"assembled {len(key)} items, expected {case['n']} in order; "
                 f"first missing {miss}, head {key[:5]}, tail {key[-5:]}")
